@@ -90,7 +90,7 @@ def check(run: Run) -> None:
     ok = False
     if len(loops) == 1:
         it = strip_sites(fa.term_of(loops[0].iter, fa.cfg.node_of(loops[0])))
-        ok = it == ("list", (("param", pc.pos_params[1]), ("param", pc.pos_params[3])))
+        ok = it[0] in ("list", "tuple") and it[1] == (("param", pc.pos_params[1]), ("param", pc.pos_params[3]))  # an ordered display
     run.check(ok, "C09.R1", pc, loops[0] if loops else pc.node, "callbacks are looked up on [object type, method] in that order", "the class-level callback is not consulted before the method-level one (or the lookup objects are not the object type and the method)", "for base_obj in [obj_type, call_method]")
     for c in calls_in(pc):
         if isinstance(c.func, ast.Name) and c.func.id == "getattr" and len(c.args) >= 2 and isinstance(c.args[1], ast.Constant) and c.args[1].value == "_func_adl_type_info":
@@ -227,7 +227,26 @@ def check(run: Run) -> None:
             g_ = m.find_method(ps.cls, cb.attr)
             if g_ is not None and g_.pos_params:
                 adders.append((g_, ("param", g_.pos_params[0]), 1))
+        elif isinstance(cb, ast.Call) and isinstance(cb.func, ast.Name) and len(cb.args) == 1 and isinstance(cb.args[0], ast.Name) and cb.args[0].id == ps.pos_params[0]:
+            # a callable object built for this transformer: K(self), with K.__init__ keeping its argument and K.__call__(md)
+            K = next((c_ for c_ in m.classes.values() if c_.name == cb.func.id and "__call__" in c_.methods and "__init__" in c_.methods), None)
+            if K is not None:
+                ini = K.methods["__init__"]
+                kept = [n.targets[0].attr for n in own_nodes(ini) if isinstance(n, ast.Assign) and len(n.targets) == 1 and isinstance(n.targets[0], ast.Attribute) and isinstance(n.targets[0].value, ast.Name) and n.targets[0].value.id == ini.pos_params[0] and isinstance(n.value, ast.Name) and len(ini.pos_params) == 2 and n.value.id == ini.pos_params[1]]
+                call_m = K.methods["__call__"]
+                if len(kept) == 1 and call_m.pos_params:
+                    adders.append((call_m, ("attr", ("param", call_m.pos_params[0]), kept[0]), 1))
     ok = False
+    lam_cbs = [c.args[1] if len(c.args) > 1 else next((k.value for k in c.keywords if k.arg == "callback"), None) for c in scans]
+    for lam in [x for x in lam_cbs if isinstance(x, ast.Lambda)]:
+        # lambda md: setattr(self, "_stream", self._stream.MetaData(ast.literal_eval(md)))
+        b = lam.body
+        if isinstance(b, ast.Call) and isinstance(b.func, ast.Name) and b.func.id == "setattr" and len(b.args) == 3 and len(lam.args.args) == 1 and fps.cfg.has_node(b):
+            self_t = ("param", ps.pos_params[0])
+            tgt_ok = strip_sites(fps.term_of(b.args[0])) == self_t and isinstance(b.args[1], ast.Constant) and b.args[1].value == "_stream"
+            want = ast.parse(f"{ps.pos_params[0]}._stream.MetaData(ast.literal_eval({lam.args.args[0].arg}))", mode="eval").body
+            ok = tgt_ok and ast.dump(b.args[2]) == ast.dump(want)
+            run.check(ok, "C09.R3", ps, stmt_of(lam), "each nested MetaData is re-applied to the current stream", f"the nested metadata is applied as {ast.unparse(b)[:120]}: it must extend the transformer's current stream with the evaluated dictionary", "self._stream = self._stream.MetaData(ast.literal_eval(md))")
     for f, self_t, first in adders:
         fad = ctx.analysis(f)
         for n in own_nodes(f):
